@@ -351,20 +351,133 @@ func c17Apply(s Store, o c17Op) (res c17Res) {
 
 // ---------------------------------------------------------------- generator
 
+// Topic names: since /repo validates them (CreateTopic accepts only [a-zA-Z0-9._-], 1..249 bytes,
+// not "." or ".."), the regular pools hold legal names only, grouped in families whose members are
+// string prefixes / near-prefixes of each other (both stores build their keys by concatenating the
+// name with a separator, so a prefix-related live sibling is the neighbour a sloppy key range hits).
+// Illegal names stay in the odd pool (a quarter of the cases): both stores must reject them alike,
+// and an initial snapshot may still carry one.
 var (
-	c17PlainTopics  = []string{"orders", "t1", "a.b-c_d", "Ünï-кодъ", "日本語トピック", "x", "orders2", "T1"}
-	c17PlainGroups  = []string{"g1", "billing", "grp.with-dots_and", "группа", "g2", "G1"}
-	c17OddTopics    = []string{"a:b", "a/b", " ", "b:c"}
+	c17TopicFamilies = [][]string{
+		{"orders", "orders-v2", "orders.v2", "orders2", "orders_"},
+		{"a", "ab", "a.b", "a-b", "abc"},
+		{"t1", "t10", "t1.x", "t", "T1"},
+	}
+	c17LooseTopics   = []string{"x", "a.b-c_d", "events", "Z9", "..."}
+	c17GroupFamilies = [][]string{
+		{"g1", "g10", "g1.x", "g1-", "G1"},
+		{"billing", "billing-2", "billing.eu", "bill"},
+	}
+	c17LooseGroups  = []string{"grp.with-dots_and", "группа", "g2"}
+	c17OddTopics    = []string{"a:b", "a/b", " ", "b:c", "Ünï-кодъ", "日本語トピック", ".", ".."}
 	c17OddGroups    = []string{"a:b", "a/b", " ", "g1:t1"}
 	c17MetaAlphabet = []string{"", "m", "with \"quotes\" and \\ slash", "ユニコード", "line\nbreak", "{\"offset\":7}", "\u0000nul"}
 )
 
+// c17Pick chooses k names: two times out of three all from one family (prefix-related), else from
+// the union of all families and the loose names.
+func c17Pick(rng *rand.Rand, families [][]string, loose []string, k int) []string {
+	var pool []string
+	if rng.Intn(3) > 0 {
+		pool = append(pool, families[rng.Intn(len(families))]...)
+	} else {
+		for _, f := range families {
+			pool = append(pool, f...)
+		}
+		pool = append(pool, loose...)
+	}
+	var out []string
+	for _, i := range rng.Perm(len(pool)) {
+		if len(out) < k {
+			out = append(out, pool[i])
+		}
+	}
+	return out
+}
+
+// c17Related: one name is a strict string prefix of the other.
+func c17Related(a, b string) bool {
+	return a != b && (strings.HasPrefix(a, b) || strings.HasPrefix(b, a))
+}
+
 type c17Gen struct {
-	rng    *rand.Rand
-	topics []string
-	groups []string
-	ctr    int64
-	odd    bool
+	rng      *rand.Rand
+	topics   []string
+	groups   []string
+	ctr      int64
+	odd      bool
+	oddTopic string
+
+	// what the history so far has established (only results that BOTH stores accepted are
+	// entered, so the model steers the workload and never judges anything)
+	live    map[string]int32          // topic -> partition count
+	deleted map[string]bool           // topic was deleted at least once
+	offs    map[string]map[int32]bool // partitions whose next offset was ever written (any incarnation of the name)
+	state   map[string]bool           // live topic holds written state (next offset or stored config) in its current incarnation
+}
+
+func (g *c17Gen) wrote(topic string, part int32) {
+	if g.offs[topic] == nil {
+		g.offs[topic] = map[int32]bool{}
+	}
+	g.offs[topic][part] = true
+}
+
+func (g *c17Gen) parts(topic string, always ...int32) []int32 {
+	set := map[int32]bool{}
+	for _, p := range always {
+		set[p] = true
+	}
+	for p := range g.offs[topic] {
+		set[p] = true
+	}
+	var out []int32
+	for p := range set {
+		out = append(out, p)
+	}
+	sort.Slice(out, func(i, j int) bool { return out[i] < out[j] })
+	return out
+}
+
+// guided picks an operation that the current state makes meaningful: topics get created, written
+// to (next offsets on existing partitions, stored config, commits, growth), deleted once they hold
+// state, and re-created under the same name, all on the same pair of store instances.
+func (g *c17Gen) guided() c17Op {
+	t := g.topic()
+	n, live := g.live[t]
+	if !live || n <= 0 {
+		if t == g.oddTopic && g.rng.Intn(3) > 0 { // mostly leave the (possibly illegal) odd name to the blind draws
+			t = g.topics[g.rng.Intn(3)] // the first three names of a case are legal
+			if n, live = g.live[t]; live && n > 0 {
+				return c17Op{Kind: "UpdateOffsets", Topic: t, Part: int32(g.rng.Intn(int(n))), N: g.next() * 10}
+			}
+		}
+		return c17Op{Kind: "CreateTopic", Topic: t, N: int64(1 + g.rng.Intn(4)), RF: []int16{1, 1, 0, 2}[g.rng.Intn(4)]}
+	}
+	p := int32(g.rng.Intn(int(n)))
+	r := g.rng.Intn(100)
+	switch {
+	case r < 26:
+		return c17Op{Kind: "UpdateOffsets", Topic: t, Part: p, N: g.next() * 10}
+	case r < 38:
+		return c17Op{Kind: "NextOffset", Topic: t, Part: p}
+	case r < 50:
+		cfg := g.configValue()
+		cfg.Name = t
+		return c17Op{Kind: "UpdateTopicConfig", CfgV: cfg}
+	case r < 57:
+		return c17Op{Kind: "FetchTopicConfig", Topic: t}
+	case r < 68:
+		return c17Op{Kind: "CommitConsumerOffset", Group: g.group(), Topic: t, Part: p, N: 1000 + g.next(),
+			Meta: c17MetaAlphabet[g.rng.Intn(len(c17MetaAlphabet))] + fmt.Sprintf("#%d", g.ctr)}
+	case r < 76 && n < 12:
+		return c17Op{Kind: "CreatePartitions", Topic: t, N: int64(n) + 1 + int64(g.rng.Intn(3))}
+	default:
+		if g.state[t] || g.rng.Intn(4) == 0 {
+			return c17Op{Kind: "DeleteTopic", Topic: t}
+		}
+		return c17Op{Kind: "UpdateOffsets", Topic: t, Part: p, N: g.next() * 10}
+	}
 }
 
 func (g *c17Gen) topic() string { return g.topics[g.rng.Intn(len(g.topics))] }
@@ -447,6 +560,15 @@ func (g *c17Gen) configValue() *metadatapb.TopicConfig {
 }
 
 func (g *c17Gen) op() c17Op {
+	if g.rng.Intn(100) < 45 {
+		return g.guided()
+	}
+	return g.blind()
+}
+
+// blind draws an operation without looking at the state (the original workload: many calls hit
+// missing topics, missing partitions and invalid arguments).
+func (g *c17Gen) blind() c17Op {
 	r := g.rng.Intn(100)
 	switch {
 	case r < 9:
@@ -581,6 +703,21 @@ func (h *c17Hist) deletedAfterCommit(tu c17Tuple) (c17Op, bool) {
 	return c17Op{}, false
 }
 
+// pathPrefixDeletedAfterCommit: the tuple's topic name contains '/', and after its last commit a
+// DeleteTopic of a *different* topic d with tuple.T = d + "/" + rest was accepted.
+func (h *c17Hist) pathPrefixDeletedAfterCommit(tu c17Tuple) (c17Op, bool) {
+	ci, committed := h.commitAt[tu]
+	if !committed {
+		return c17Op{}, false
+	}
+	for d, di := range h.topicDeletedAt {
+		if di > ci && d != "" && strings.HasPrefix(tu.T, d+"/") {
+			return h.ops[ci], true
+		}
+	}
+	return c17Op{}, false
+}
+
 // c17Findings compares the two results of one operation. Every difference
 // becomes a finding whose class is computed from the witness: a handful of
 // precisely recognised shapes get a descriptive name, everything else is
@@ -682,6 +819,9 @@ func (h *c17Hist) findings(o c17Op, mem, etcd c17Res) []c17Finding {
 			if c, ok := h.deletedAfterCommit(c17Tuple{o.Group, o.Topic, o.Part}); ok &&
 				((e.Path == "offset" && x.Val == fmt.Sprint(c.N) && y.Val == "0") || (e.Path == "metadata" && x.Val == c.Meta && y.Val == "")) {
 				add("consumer_offset_kept_by_memory_after_DeleteTopic", det)
+			} else if c, ok := h.pathPrefixDeletedAfterCommit(c17Tuple{o.Group, o.Topic, o.Part}); ok &&
+				((e.Path == "offset" && x.Val == fmt.Sprint(c.N) && y.Val == "0") || (e.Path == "metadata" && x.Val == c.Meta && y.Val == "")) {
+				add("consumer_offset_of_slash_topic_wiped_by_etcd_DeleteTopic_of_its_path_prefix", det)
 			} else {
 				add(o.Kind+":"+e.Path, det)
 			}
@@ -713,7 +853,7 @@ const c17Workers = 4
 
 func TestVerifC17Diff(t *testing.T) {
 	r := verifkit.Start(t, "C17", "diff")
-	defer r.Finish("identical PRNG operation sequences through the Store interface on a fresh InMemoryStore and a fresh EtcdStore (embedded etcd, empty keyspace, built like NewEtcdStore with observable KV/Watcher so the harness can wait until the store has finished reacting to its own snapshot writes); after every operation the two canonicalised results (error sentinel class, every returned field except the wall-clock created_at, list results as sets, Metadata topic order as returned) must be equal; then a full read-back of every name, tuple and group used; non-trivial = a case in which both stores accepted at least one topic mutation, one consumer-offset commit and one group put and in which at least 10 results carried data",
+	defer r.Finish("identical PRNG operation sequences through the Store interface on a fresh InMemoryStore and a fresh EtcdStore (embedded etcd, empty keyspace, assembled like NewEtcdStore - every field the real constructor initialises is initialised the same way - with observable KV/Watcher so the harness can wait until the store has finished reacting to its own snapshot writes); 3 topic names and 2-3 group ids per case, two times out of three drawn from one family of legal names that are string prefixes or near-prefixes of each other (orders/orders-v2/orders.v2/orders2, a/ab/a.b/a-b, t/t1/t10/t1.x, g1/g10/g1.x, bill/billing/billing-2), a quarter of the cases add one illegal or odd name; 45% of the operations are state-guided (create a missing topic, write next offsets / config / commits to existing partitions, grow, delete a topic that holds state, re-create it under the same name on the same store instances), the rest are drawn blindly (missing topics, invalid and nil arguments); after every operation the two canonicalised results (error sentinel class, every returned field except the wall-clock created_at, list results as sets, Metadata topic order as returned) must be equal; after every accepted CreateTopic/DeleteTopic the next offset of every partition ever written and the config of every topic holding state are read back for ALL names of the case; at the end a full read-back of every name, partition, tuple and group used; non-trivial = a case in which both stores accepted at least one topic mutation, one consumer-offset commit and one group put and in which at least 10 results carried data; floors: a quarter of the cases must read a next offset of a re-created name whose earlier incarnation had written it, an eighth must delete a topic beside a live prefix-related topic that holds state",
 		"names and strings are valid UTF-8 (proto3/JSON encoders reject or rewrite other bytes)",
 		"sequential callers; each call starts after the etcd store has processed its own earlier snapshot writes (the pending-refresh hazard belongs to C21)",
 		"wall-clock fields (TopicConfig.created_at, the etcd record's committed_at) are excluded by name; caller-supplied heartbeat_at is data and is compared",
@@ -739,6 +879,8 @@ func TestVerifC17Diff(t *testing.T) {
 	wg.Wait()
 	r.Floor("ops_compared", int64(n)*10)
 	r.Floor("cases_all_kinds_accepted", int64(n)/4)
+	r.Floor("cases_reading_next_offset_after_recreate", int64(n)/4)
+	r.Floor("cases_deleting_beside_prefix_related_topic", int64(n)/8)
 }
 
 // c17Infra: the embedded etcd (not the store) failed — deadline of the store's own 3 s/5 s
@@ -774,18 +916,13 @@ func (p *c17Pending) count(name string, n int64) { p.counts[name] += n }
 
 func c17Attempt(r *verifkit.Run, admin *clientv3.Client, endpoints []string, ns string, ci int) (bool, string) {
 	rng := r.Rand(ci)
-	gen := &c17Gen{rng: rng}
+	gen := &c17Gen{rng: rng, live: map[string]int32{}, deleted: map[string]bool{}, offs: map[string]map[int32]bool{}, state: map[string]bool{}}
 	gen.odd = rng.Intn(4) == 0
-	tp := rng.Perm(len(c17PlainTopics))
-	for i := 0; i < 3; i++ {
-		gen.topics = append(gen.topics, c17PlainTopics[tp[i]])
-	}
-	gp := rng.Perm(len(c17PlainGroups))
-	for i := 0; i < 2+rng.Intn(2); i++ {
-		gen.groups = append(gen.groups, c17PlainGroups[gp[i]])
-	}
+	gen.topics = c17Pick(rng, c17TopicFamilies, c17LooseTopics, 3)
+	gen.groups = c17Pick(rng, c17GroupFamilies, c17LooseGroups, 2+rng.Intn(2))
 	if gen.odd {
-		gen.topics = append(gen.topics, c17OddTopics[rng.Intn(len(c17OddTopics))])
+		gen.oddTopic = c17OddTopics[rng.Intn(len(c17OddTopics))]
+		gen.topics = append(gen.topics, gen.oddTopic)
 		gen.groups = append(gen.groups, c17OddGroups[rng.Intn(len(c17OddGroups))])
 	}
 	initial := c17Initial(rng, gen.topics)
@@ -808,6 +945,13 @@ func c17Attempt(r *verifkit.Run, admin *clientv3.Client, endpoints []string, ns 
 	tuples := map[c17Tuple]bool{}
 	classesSeen := map[string]bool{}
 	abort := ""
+	for _, t := range initial.Topics {
+		gen.live[*t.Topic] = int32(len(t.Partitions))
+	}
+	lifecycle := ""                        // topic of the last accepted CreateTopic/DeleteTopic not yet followed by a probe
+	curOffs := map[string]map[int32]bool{} // partitions of a live topic whose next offset was written in its current incarnation
+	stale := map[string]map[int32]bool{}   // partitions written in an earlier, deleted incarnation of the name and not written since
+	recreatedRead, siblingDeletes := 0, 0
 
 	step := func(o c17Op) bool {
 		if !es.Quiesce() {
@@ -857,17 +1001,82 @@ func c17Attempt(r *verifkit.Run, admin *clientv3.Client, endpoints []string, ns 
 				delete(h.cfgUpdatedAt, o.Topic)
 				delete(h.partsGrownAt, o.Topic)
 				topicMut++
+				for u := range gen.live {
+					if c17Related(u, o.Topic) && gen.state[u] {
+						siblingDeletes++
+						pend.count("deletes_beside_live_prefix_related_topic_holding_state", 1)
+						break
+					}
+				}
+				delete(gen.live, o.Topic)
+				delete(gen.state, o.Topic)
+				gen.deleted[o.Topic] = true
+				for p := range curOffs[o.Topic] {
+					if stale[o.Topic] == nil {
+						stale[o.Topic] = map[int32]bool{}
+					}
+					stale[o.Topic][p] = true
+				}
+				delete(curOffs, o.Topic)
+				lifecycle = o.Topic
 			case "CreateTopic":
 				topicMut++
+				gen.live[o.Topic] = int32(o.N)
+				if gen.deleted[o.Topic] {
+					pend.count("topics_recreated_after_delete", 1)
+				}
+				lifecycle = o.Topic
 			case "CreatePartitions":
 				h.partsGrownAt[o.Topic] = idx
 				topicMut++
+				gen.live[o.Topic] = int32(o.N)
 			case "UpdateTopicConfig":
 				h.cfgUpdatedAt[o.CfgV.Name] = idx
+				if _, live := gen.live[o.CfgV.Name]; live {
+					gen.state[o.CfgV.Name] = true
+				}
+			case "UpdateOffsets":
+				gen.wrote(o.Topic, o.Part)
+				if n, live := gen.live[o.Topic]; live && o.Part < n {
+					gen.state[o.Topic] = true
+					if curOffs[o.Topic] == nil {
+						curOffs[o.Topic] = map[int32]bool{}
+					}
+					curOffs[o.Topic][o.Part] = true
+				}
+				delete(stale[o.Topic], o.Part) // a fresh write replaces whatever the earlier incarnation left
+			case "NextOffset":
+				if stale[o.Topic][o.Part] {
+					recreatedRead++
+					pend.count("next_offset_reads_after_recreate_of_a_name_with_earlier_offsets", 1)
+				}
 			case "PutConsumerGroup":
 				puts++
 			}
 		}
+		return true
+	}
+
+	// probe: after every accepted topic creation or deletion, the per-topic state a caller can read
+	// is compared for ALL topic names of the case, not only for the one that was created or deleted:
+	// the next offset of every partition ever written under a name, and the topic config of the
+	// subject and of every live topic that holds written state.
+	probe := func() bool {
+		subject := lifecycle
+		lifecycle = ""
+		for _, tn := range gen.topics {
+			for _, p := range gen.parts(tn) {
+				if !step(c17Op{Kind: "NextOffset", Topic: tn, Part: p}) {
+					return false
+				}
+			}
+			if tn == subject || gen.state[tn] {
+				if !step(c17Op{Kind: "FetchTopicConfig", Topic: tn}) {
+					return false
+				}
+			}
+		}
+		pend.count("lifecycle_probes", 1)
 		return true
 	}
 
@@ -878,13 +1087,16 @@ func c17Attempt(r *verifkit.Run, admin *clientv3.Client, endpoints []string, ns 
 			tuples[c17Tuple{o.Group, o.Topic, o.Part}] = true
 		}
 		ok = step(o)
+		if ok && lifecycle != "" {
+			ok = probe()
+		}
 	}
 	// full read-back
 	if ok {
 		ok = step(c17Op{Kind: "Metadata"}) && step(c17Op{Kind: "ListConsumerOffsets"}) && step(c17Op{Kind: "ListConsumerGroups"})
 		for _, tn := range gen.topics {
 			ok = ok && step(c17Op{Kind: "FetchTopicConfig", Topic: tn}) && step(c17Op{Kind: "Metadata", Names: []string{tn}})
-			for _, p := range []int32{0, 1, 3} {
+			for _, p := range gen.parts(tn, 0, 1, 3) {
 				ok = ok && step(c17Op{Kind: "NextOffset", Topic: tn, Part: p})
 			}
 		}
@@ -915,6 +1127,12 @@ func c17Attempt(r *verifkit.Run, admin *clientv3.Client, endpoints []string, ns 
 	}
 	if gen.odd {
 		r.Count("cases_with_odd_names", 1)
+	}
+	if recreatedRead > 0 {
+		r.Count("cases_reading_next_offset_after_recreate", 1)
+	}
+	if siblingDeletes > 0 {
+		r.Count("cases_deleting_beside_prefix_related_topic", 1)
 	}
 	r.Case(verifkit.Hash(trace), all && withData >= 10)
 	if ci < 2 {
